@@ -52,6 +52,58 @@ Theorem vec_session_refines_any_env :
 Proof. exact @g_vec_session_refines. Qed.
 Print Assumptions vec_session_refines_any_env.
 
+(* ... and for ANY history of calls, reset(seed, options) and step(actions) in any order and any
+   number (a reset in the middle of episodes, two resets in a row, ...): the state of sub-environment
+   i is that of environment i after its own history, and every outcome agrees at position i *)
+Theorem vec_events_refines_any_env :
+  forall (env state : Type)
+         (e_step : env -> state -> list Z -> state * trans)
+         (e_reset : env -> state -> rarg -> state * (dict obs_t * dict info_t))
+         (e_kind : env -> okind) (e_live : state -> list nat),
+  (forall E s acts, all_done_keys (snd (e_step E s acts)) = g_no_agent_left e_live (fst (e_step E s acts))) ->
+  (forall E s acts a ob, lookup a (tobs (snd (e_step E s acts))) = Some ob -> obs_ok (mshapes (e_kind E)) ob) ->
+  (forall E s ra a ob, lookup a (fst (snd (e_reset E s ra))) = Some ob -> obs_ok (mshapes (e_kind E)) ob) ->
+  (forall E s acts a d, lookup a (tinfo (snd (e_step E s acts))) = Some d -> NoDup (keys d)) ->
+  (forall E s ra a d, lookup a (snd (snd (e_reset E s ra))) = Some d -> NoDup (keys d)) ->
+  forall k agents Es evs (st : gvstate state) i E s,
+  NoDup agents -> Forall (fun E0 => e_kind E0 = k) Es -> wf_vstate (length Es) k agents st ->
+  Forall (event_ok (length Es)) evs ->
+  nth_error Es i = Some E -> nth_error (vstates st) i = Some s ->
+  let evs_i := map (event_at (length Es) agents i) evs in
+  nth_error (vstates (fst (g_vec_events (g_worker_step e_step e_reset e_kind) (g_worker_reset e_reset e_kind)
+                             e_kind k agents Es st evs))) i
+    = Some (fst (g_events e_step e_reset e_live E s evs_i)) /\
+  Forall2 (outcome_agrees k agents i)
+          (snd (g_vec_events (g_worker_step e_step e_reset e_kind) (g_worker_reset e_reset e_kind)
+                  e_kind k agents Es st evs))
+          (snd (g_events e_step e_reset e_live E s evs_i)).
+Proof. exact @g_vec_events_refines. Qed.
+Print Assumptions vec_events_refines_any_env.
+
+(* [outcome_agrees] and [event_at] spelled out *)
+Theorem outcome_agrees_unfold : forall k agents i vo so,
+  outcome_agrees k agents i vo so <->
+  match vo, so with
+  | OStep out, SoStep ref => agrees_at k agents i out (process_transition k agents ref)
+  | OReset r, SoReset w =>
+      forall a, In a agents ->
+        obs_row i k (get a (fst r) []) = get a (fst w) (placeholder_obs k) /\
+        (forall key, info_at (snd r) a key i = info_in (snd w) a key)
+  | _, _ => False
+  end.
+Proof. exact (fun k agents i vo so => iff_refl _). Qed.
+Print Assumptions outcome_agrees_unfold.
+
+Theorem vec_events_refines : forall k agents Es evs (st : vstate) i E s,
+  NoDup agents -> Forall (fun E => kind E = k) Es -> wf_vstate (length Es) k agents st ->
+  Forall (event_ok (length Es)) evs ->
+  nth_error Es i = Some E -> nth_error (vstates st) i = Some s ->
+  let evs_i := map (event_at (length Es) agents i) evs in
+  nth_error (vstates (fst (vec_events k agents Es st evs))) i = Some (fst (single_events E s evs_i)) /\
+  Forall2 (outcome_agrees k agents i) (snd (vec_events k agents Es st evs)) (snd (single_events E s evs_i)).
+Proof. exact vec_events_refines_lemma. Qed.
+Print Assumptions vec_events_refines.
+
 (* for every such environment the worker's step is the reference step followed by process_transition,
    and the single-environment wrapper is the reference step *)
 Theorem worker_refines_single_any_env :
@@ -315,3 +367,17 @@ Theorem late_joiner_placeholder : forall E agents s ra a,
   has_agent (snd (snd (env_reset E s ra))) a = false.
 Proof. exact late_joiner_placeholder_lemma. Qed.
 Print Assumptions late_joiner_placeholder.
+
+(* non-vacuity of vec_events_refines: a history with a reset in the middle of sub-environment 1's episode
+   (seeds given as a list), two resets in a row and a step after them satisfies the hypotheses *)
+Definition Ex_events : list vevent :=
+  [ EvReset (SInt 5%Z) (Some 9%Z); EvStep [(0, [1; 2]%Z); (1, [3; 4]%Z)];
+    EvReset (SList [7; 3]%Z) None; EvReset SNone (Some 2%Z); EvStep [(1, [0; 1]%Z); (0, [2; 3]%Z)] ].
+Example events_hypotheses_satisfiable :
+  Forall (event_ok (length Ex_envs)) Ex_events /\
+  wf_vstate (length Ex_envs) KDict [0; 1] (vec_init KDict [0; 1] Ex_envs) /\
+  map (fun s => (base s, ord s, tm s)) (vstates (fst (vec_events KDict [0; 1] Ex_envs (vec_init KDict [0; 1] Ex_envs) Ex_events)))
+  = [(7%Z, 5, 0); (3%Z, 3, 1)].
+Proof.
+  split; [repeat constructor|]. split; [apply vec_init_wf|]. vm_compute. reflexivity.
+Qed.
